@@ -1398,7 +1398,8 @@ def compile_pattern(compiler, pattern):
         if value[1] == Symbol("_"):
             # `#* _` is the wildcard star pattern, which binds nothing.
             return asty.MatchStar(value, name=None)
-        return compiler.scope.assign(asty.MatchStar(value, name=mangle(value[1])))
+        return compiler.scope.assign(
+            asty.MatchStar(value, name=mangle(compiler._nonconst(value[1]))))
 
     elif isinstance(value, Dict):
         kvs, rest = value
@@ -1409,12 +1410,15 @@ def compile_pattern(compiler, pattern):
                 value,
                 keys=[compiler.compile(key).expr for key in keys],
                 patterns=[compile_pattern(compiler, v) for v in values],
-                rest=mangle(rest) if rest else None,
+                rest=mangle(compiler._nonconst(rest)) if rest else None,
             )
         )
     elif isinstance(value, Expression):
         head, args, kwargs = value
         keywords, values = zip(*kwargs) if kwargs else ([], [])
+        for kwd in keywords:
+            if kwd.name in ("None", "True", "False"):
+                compiler._syntax_error(kwd, "Can't use a constant as an attribute name")
         cls = compiler.compile(
           # `head` could be a symbol or a dotted form.
             (head[:1] + head[1]).replace(head)
